@@ -881,13 +881,14 @@ std::vector<Scenario> scenarios_for(const std::string& prop, int tier) {
           v.push_back(s); }
     }
     else if (prop == "C04") {
-        uint32_t fam = F_CHUNK | F_RDCUT | F_WR | F_TAIL | F_REORDER | F_LOSS | F_BCLOSE | (tier ? F_BYTE : 0);
+        uint32_t fam = F_CHUNK | F_RDCUT | F_WR | F_TAIL | F_REORDER | F_LOSS | F_BCLOSE;
         ref::Props mp = {ref::pnum(0x01, 1), ref::pstr(0x03, "ct"), ref::ppair("mk", "mv"), ref::pnum(0x0B, 3), ref::pnum(0x0B, 4)};
         { auto s = base("M1-q0-q1-q2", {RUN(), RECV(12), SUB({{"b/#", 2}}), BARRIER(), BPUB(0, 1, mp), BPUB(1, 2, mp), BPUB(2, 3, mp)}, fam, tier ? 3 : 2, M_C04); v.push_back(s); s.name += "-tcp"; s.flavour = 1; s.D = tier ? 2 : 1; v.push_back(s); }
         { auto s = base("M2-q2-q2", {RUN(), RECV(12), SUB({{"b/#", 2}}), BARRIER(), BPUB(2, 1), BPUB(2, 2)}, fam, tier ? 3 : 2, M_C04); v.push_back(s); }
         { auto s = base("M3-q1x3", {RUN(), RECV(12), SUB({{"b/#", 2}}), BARRIER(), BPUB(1, 1), BPUB(1, 2), BPUB(1, 3)}, fam & ~F_CHUNK, 2, M_C04); v.push_back(s); }
         { auto s = base("M4-interleaved-with-publishing", {RUN(), RECV(12), SUB({{"b/#", 2}}), BARRIER(), BPUB(2, 1), PUB(2, 50), BPUB(1, 2), PUB(1, 51)}, fam & ~F_CHUNK, tier ? 2 : 1, M_C04 | M_C01); v.push_back(s); }
         { auto s = base("M5-session-lost", {RUN(), RECV(12), SUB({{"b/#", 2}}), BARRIER(), BPUB(2, 1), BPUB(1, 2)}, fam & ~F_CHUNK, 2, M_C04); s.broker.sp_policy = {-1, 0, -1}; v.push_back(s); }
+        if (tier) { size_t n0 = v.size(); for (size_t i = 0; i < n0; ++i) { Scenario b = v[i]; b.name += "-bytecuts"; b.fam |= F_BYTE; b.D = 2; v.push_back(b); } }   // byte-granular cut positions at one deviation less
         for (auto& s : v) s.expect_all_success = false;
     }
     else if (prop == "C19" || prop == "C19a") {
